@@ -24,6 +24,7 @@ VEHICLE_BASE = 3000
 # value policies for fields the battle does not set itself (C15: extreme but legal values); None = zeros
 INT_POLICY = None
 FLOAT_BITS = None
+ARENA_BYTES = None
 
 
 def int_extreme(which):
@@ -244,6 +245,8 @@ def build(rng, game, version, views, rich=False, ids=None):
         return b, exp
     arena = rng.choice(['spaces/s07_Advance', 'spaces/a08_NE_passage', 'spaces/42_Neighbors', 'spaces/estuary', 'spaces/spaces_x', 'spaces/spaces/c', 'capes', 'spaces/ocean'])
     nb = arena.encode()
+    if ARENA_BYTES is not None:
+        nb = ARENA_BYTES            # an arena name that is not valid UTF-8 (C14)
     if game == 'wot':
         b.emit('map', struct.pack('<iib', 1, 77, len(nb)) + nb, name=arena)
     else:
